@@ -324,3 +324,106 @@ func TestC19Processes(t *testing.T) {
 	}
 	col.Set("processes", nproc)
 }
+
+// ---- the same contents at the same address, different contents at the same address ----
+
+// AddrCase: one evaluator sees a sequence of record contents, each written
+// into ONE record that is always passed by the same pointer; a fresh
+// evaluator sees each of them in a record of its own.
+type AddrCase struct {
+	Prop   string   `json:"prop"`
+	Kind   string   `json:"kind"`
+	Script string   `json:"script"`
+	Recs   []c19Rec `json:"records"`
+	UseRun bool     `json:"use_run,omitempty"`
+	Msg    string   `json:"message,omitempty"`
+}
+
+type c19Rec struct {
+	Name  string
+	Count int
+	Score float64
+	Tags  []string
+	Meta  map[string]interface{}
+	Flag  bool
+}
+
+func observeRec(r *eng.Runner, rec *c19Rec, useRun bool) string {
+	if useRun {
+		ok, err := r.E.Run(rec)
+		return fmt.Sprintf("run:%v err:%v", ok, err != nil)
+	}
+	res := r.Execute(rec)
+	if res.Panic != nil {
+		return fmt.Sprintf("panic:%v", res.Panic)
+	}
+	if res.Err != nil {
+		return "error trace:" + strings.Join(res.Trace, "|")
+	}
+	return res.Val.Describe() + " trace:" + strings.Join(res.Trace, "|")
+}
+
+func runAddr(c *AddrCase) error {
+	used, err := prepared(c.Script, nil, false)
+	if err != nil {
+		return fmt.Errorf("Prepare rejected a valid script: %v", err)
+	}
+	slot := &c19Rec{}
+	for i := range c.Recs {
+		*slot = c.Recs[i] // same address, new contents
+		got := observeRec(used, slot, c.UseRun)
+		fresh, err := prepared(c.Script, nil, false)
+		if err != nil {
+			return fmt.Errorf("Prepare rejected a valid script: %v", err)
+		}
+		own := c.Recs[i]
+		want := observeRec(fresh, &own, c.UseRun)
+		if got != want {
+			return fmt.Errorf("record %d (written into the record the evaluator already saw, same address): %s; a fresh evaluator given an equal record elsewhere: %s", i, clip(got, 500), clip(want, 500))
+		}
+	}
+	return nil
+}
+
+func init() {
+	replayers["C19/address"] = func(raw []byte) error {
+		var c AddrCase
+		if err := json.Unmarshal(raw, &c); err != nil {
+			return err
+		}
+		return runAddr(&c)
+	}
+}
+
+func TestC19Addresses(t *testing.T) {
+	defer silenceAs("addresses")()
+	col := evid.New("C19", "addresses", "")
+	scripts := []string{"trace(Name, Count); return [Name, Count, Score, Flag];", "return len(Tags) + Count;", "foreach t in Tags { trace(t); } return Meta;",
+		"if ( Flag ) { return Name; } return Score;", "return string(Meta) + Name;", "return Count > 3 && Name ~= /a/;", "h = {\"n\": Name, \"c\": Count}; trace(keys(h)); return h;",
+		"return Tags;", "switch ( Name ) { case \"a\" { return Count; } default { return Score; } }"}
+	rapidCheck(t, col, func(rt *rapid.T) {
+		c := &AddrCase{Prop: "C19", Kind: "address", Script: scripts[gen.Uniform(rt, "script", len(scripts))], UseRun: gen.Uniform(rt, "userun", 4) == 0}
+		n := rapid.IntRange(2, 5).Draw(rt, "nrec")
+		for i := 0; i < n; i++ {
+			if i > 0 && gen.Uniform(rt, "same", 4) == 0 {
+				c.Recs = append(c.Recs, c.Recs[i-1])
+				continue
+			}
+			r := c19Rec{Name: rapid.SampledFrom([]string{"a", "b", "ab", "", "é"}).Draw(rt, "name"), Count: rapid.IntRange(-2, 9).Draw(rt, "count"),
+				Score: float64(rapid.IntRange(-8, 8).Draw(rt, "score")) / 4, Flag: rapid.Bool().Draw(rt, "flag")}
+			for j := rapid.IntRange(0, 3).Draw(rt, "ntags"); j > 0; j-- {
+				r.Tags = append(r.Tags, rapid.SampledFrom([]string{"x", "y", "z"}).Draw(rt, "tag"))
+			}
+			if rapid.Bool().Draw(rt, "meta") {
+				r.Meta = map[string]interface{}{"k": rapid.IntRange(0, 3).Draw(rt, "mk"), "s": r.Name}
+			}
+			c.Recs = append(c.Recs, r)
+		}
+		if err := runAddr(c); err != nil {
+			c.Msg = err.Error()
+			violation(rt, "C19", c, "%v", err)
+		}
+		cc := c
+		col.Case(fmt.Sprint(*c), true, func() interface{} { return cc })
+	})
+}
